@@ -4,6 +4,7 @@ import ast
 from .. import registries as R
 from ..astutil import dotted, const, unparse, walk_shallow
 from ..model import AnalysisError
+from .. import pat
 
 
 # ---------------------------------------------------------------------------
@@ -18,6 +19,8 @@ def affine(e, env):
             return dict(env[e.id])
         return {e.id: 1}
     if isinstance(e, ast.Attribute):
+        return {unparse(e): 1}
+    if isinstance(e, ast.Call) and dotted(e.func) == 'len':
         return {unparse(e): 1}
     if isinstance(e, ast.BinOp):
         l, r = affine(e.left, env), affine(e.right, env)
@@ -52,11 +55,16 @@ def _norm(form, base_names, idx_names):
     if form is None:
         return None
     out = {}
+    others = [k for k in form if k is not None and k not in base_names
+              and k not in idx_names and k != 'I' and k != 'B']
     for k, v in form.items():
         if k in base_names:
             k = 'B'
         elif k in idx_names:
             k = 'I'
+        elif len(others) == 1 and k == others[0] and \
+                not any(b in form for b in base_names) and 'B' not in form:
+            k = 'B'      # the single remaining symbol is the base
         out[k] = out.get(k, 0) + v
     out = {k: v for k, v in out.items() if v != 0}
     return tuple(sorted(out.items(), key=lambda kv: str(kv[0])))
@@ -99,11 +107,34 @@ def header_sites(ctx):
         if f is None:
             raise AnalysisError(f'anchor vanished: {name}')
         got = {}
+        # index variable and bound names from
+        #   for i, (lo, hi) in enumerate(bounds):
+        ivars, lo_name, hi_name = {'i'}, None, None
+        for n in ast.walk(f.node):
+            if isinstance(n, ast.For) and isinstance(n.target, ast.Tuple) \
+                    and len(n.target.elts) == 2 and \
+                    isinstance(n.target.elts[0], ast.Name) and \
+                    isinstance(n.target.elts[1], ast.Tuple) and \
+                    len(n.target.elts[1].elts) == 2:
+                ivars = {n.target.elts[0].id}
+                lo_name = unparse(n.target.elts[1].elts[0])
+                hi_name = unparse(n.target.elts[1].elts[1])
+        params = [a.arg for a in f.node.args.args]
         for c in ast.walk(f.node):
             if isinstance(c, ast.Call) and isinstance(c.func, ast.Attribute)\
                     and c.func.attr == 'set_cell' and len(c.args) == 2:
-                role = role_of(unparse(c.args[1]))
-                form = _norm(affine(c.args[0], {}), {'idx'}, {'i'})
+                vt = unparse(c.args[1])
+                role = role_of(vt)
+                if lo_name and f', {lo_name})' in vt:
+                    role = 'lbound'
+                elif hi_name and f', {hi_name})' in vt:
+                    role = 'ubound'
+                elif len(params) >= 4 and f', {params[2]})' in vt:
+                    role = 'ndims'
+                elif len(params) >= 4 and f', {params[3]})' in vt:
+                    role = 'elsize'
+                form = _norm(affine(c.args[0], {}), {params[1]}
+                             if len(params) > 1 else {'idx'}, ivars)
                 got[role] = form
         construct = f'{f.file}:QvmCpu.{name}'
         ctx.instance(rule, construct, sample={k: str(v)
@@ -127,13 +158,19 @@ def header_sites(ctx):
     # --- Array.__init__ : header list positions
     ai = repo.func('qvm.cpu', 'Array.__init__')
     hdr = None
+    hname = None
     for s in walk_shallow(ai.node):
-        if isinstance(s, ast.Assign) and dotted(s.targets[0]) == 'header' \
-                and isinstance(s.value, ast.List):
+        if isinstance(s, ast.Assign) and \
+                isinstance(s.targets[0], ast.Name) \
+                and isinstance(s.value, ast.List) and s.value.elts and \
+                isinstance(s.value.elts[0], ast.Constant) and \
+                s.value.elts[0].value is None:
             hdr = s.value
+            hname = s.targets[0].id
     ext = None
     for c in ast.walk(ai.node):
-        if isinstance(c, ast.Call) and dotted(c.func) == 'header.extend' \
+        if isinstance(c, ast.Call) and \
+                dotted(c.func) == f'{hname}.extend' \
                 and c.args and isinstance(c.args[0], ast.List):
             ext = c.args[0]
     if hdr is None or ext is None:
@@ -151,9 +188,17 @@ def header_sites(ctx):
                     f'header map requires [reserved, ndims, elsize] + '
                     f'[lbound, ubound]', ai.file, ai.line)
     # --- readers with a running base: arridx, read_array
-    for mod, qn, basevar in (('qvm.cpu', 'QvmCpu._exec_arridx', 'base_idx'),
-                             ('qvm.eval', 'QvmEval.read_array', 'base_idx')):
+    for mod, qn, basevar in (('qvm.cpu', 'QvmCpu._exec_arridx', None),
+                             ('qvm.eval', 'QvmEval.read_array', None)):
         f = repo.func(mod, qn)
+        # the running base: the name advanced by the constant 3
+        for s in walk_shallow(f.node):
+            if isinstance(s, ast.AugAssign) and \
+                    isinstance(s.target, ast.Name) and \
+                    const(s.value) == 3:
+                basevar = s.target.id
+        if basevar is None:
+            raise AnalysisError(f'anchor vanished: running base in {qn}')
         env = {basevar: {'B': 1}}
         got = {}
         in_loop_step = None
@@ -227,21 +272,37 @@ def header_sites(ctx):
         f = handlers.get(name)
         got = None
         nd = None
+        # the dimension operand: first typed LONG pop
+        dim_var = None
         for s in walk_shallow(f.node):
-            if isinstance(s, ast.Assign) and dotted(s.targets[0]) == 'idx':
+            if isinstance(s, ast.Assign) and \
+                    isinstance(s.targets[0], ast.Name) and \
+                    isinstance(s.value, ast.Call) and \
+                    dotted(s.value.func) == 'self.pop' and s.value.args \
+                    and unparse(s.value.args[0]) == 'CellType.LONG' and \
+                    dim_var is None:
+                dim_var = s.targets[0].id
+        for s in walk_shallow(f.node):
+            if isinstance(s, ast.Assign) and \
+                    isinstance(s.targets[0], ast.Name) and \
+                    isinstance(s.value, ast.BinOp) and dim_var and \
+                    dim_var in {x.id for x in ast.walk(s.value)
+                                if isinstance(x, ast.Name)}:
                 # dimension numbers are 1-based: I = dim_idx - 1
                 form = affine(s.value, {})
                 if form is not None:
-                    c = form.get('dim_idx', 0)
+                    c = form.get(dim_var, 0)
                     form = dict(form)
-                    form.pop('dim_idx', None)
+                    form.pop(dim_var, None)
                     form['I'] = c
                     form[None] = form.get(None, 0) + c
                     got = _norm(form, {'array_idx'}, {'I'})
-            if isinstance(s, ast.Assign) and dotted(s.targets[0]) == 'ndims' \
-                    and isinstance(s.value, ast.Call) and \
+                    break
+            if isinstance(s, ast.Assign) and \
+                    isinstance(s.targets[0], ast.Name) and \
+                    isinstance(s.value, ast.Call) and \
                     isinstance(s.value.func, ast.Attribute) and \
-                    s.value.func.attr == 'get_cell':
+                    s.value.func.attr == 'get_cell' and nd is None:
                 nd = _norm(affine(s.value.args[0], {}), {'array_idx'}, set())
         construct = f'{f.file}:QvmCpu.{name}'
         ctx.instance(rule, construct, sample={'bound_at': str(got),
@@ -257,14 +318,14 @@ def header_sites(ctx):
     # --- header size in memlayout
     gt = repo.func('qvm.memlayout', 'get_type_size')
     hs = None
+    ok = False
     for s in ast.walk(gt.node):
-        if isinstance(s, ast.Assign) and \
-                dotted(s.targets[0]) == 'header_size':
+        if isinstance(s, ast.Assign) and 'len(' in unparse(s.value):
             form = affine(s.value, {})
-            hs = unparse(s.value)
-    ok = hs is not None and hs.replace(' ', '') in (
-        '3+len(type.array_dims)*2', '3+2*len(type.array_dims)',
-        'len(type.array_dims)*2+3')
+            if form is not None and any(
+                    (k or '').startswith('len(') for k in form):
+                hs = unparse(s.value)
+                ok = form == {'len(type.array_dims)': 2, None: 3}
     ctx.instance(rule, f'{gt.file}:get_type_size:header_size',
                  sample={'expr': hs})
     if not ok:
@@ -355,9 +416,9 @@ def frame_layout(ctx):
         f = repo.func('qvm.memlayout', qn)
         incs = [unparse(s.value) for s in ast.walk(f.node)
                 if isinstance(s, ast.AugAssign) and
-                dotted(s.target) == 'idx']
+                isinstance(s.target, ast.Name)]
         ctx.instance(rule, f'{f.file}:{qn}:step', sample={'steps': incs})
-        if not incs or not all(i.startswith('get_type_size(context, ')
+        if not incs or not all(i.startswith('get_type_size(')
                                for i in incs):
             ctx.finding(rule, f'{f.file}:{qn}:step',
                         f'{qn} advances by {incs}, not by get_type_size of '
@@ -397,19 +458,17 @@ def frame_layout(ctx):
                     f'_globals is global_vars: {ok3}) no longer derive from '
                     f'one map', gg.file, gg.line)
     gd = repo.func('qvm.memlayout', 'get_dotted_index')
-    txt = unparse(gd.node)
-    ok = 'list(struct.fields).index(var)' in txt and \
-        'list(struct.fields.values())[:field_index]' in txt and \
-        'get_type_size(context, t)' in txt
+    ok = pat.has('list(_S.fields).index(_V)', gd.node) and \
+        pat.has('list(_S.fields.values())[:_F]', gd.node) and \
+        pat.has('sum((get_type_size(context, _T) for _T in _P))', gd.node)
     ctx.instance(rule, f'{gd.file}:get_dotted_index')
     if not ok:
         ctx.finding(rule, f'{gd.file}:get_dotted_index',
                     'a field offset is no longer the sum of the sizes of '
                     'the fields declared before it', gd.file, gd.line)
     rs = repo.func('qvm.eval', 'QvmEval.read_struct')
-    txt = unparse(rs.node)
-    ok = 'struct.fields.items()' in txt and \
-        'idx += get_type_size(self, field_type)' in txt
+    ok = pat.has('for _N, _T in _S.fields.items():\n    ...\n'
+                 '    _I += get_type_size(self, _T)', rs.node)
     ctx.instance(rule, f'{rs.file}:QvmEval.read_struct')
     if not ok:
         ctx.finding(rule, f'{rs.file}:QvmEval.read_struct',
@@ -417,10 +476,10 @@ def frame_layout(ctx):
                     'get_dotted_index', rs.file, rs.line)
     # static array size = product of ranges * element size + header
     gt = repo.func('qvm.memlayout', 'get_type_size')
-    txt = unparse(gt.node)
-    ok = 'dim.static_ubound - dim.static_lbound + 1' in txt and \
-        'size *= nrange' in txt and 'size *= element_size' in txt and \
-        'return size + header_size' in txt
+    ok = pat.has('for _D in type.array_dims:\n'
+                 '    _N = _D.static_ubound - _D.static_lbound + 1\n'
+                 '    _S *= _N', gt.node) and \
+        pat.has('_S *= _E\n_H = __\nreturn _S + _H', gt.node)
     ctx.instance(rule, f'{gt.file}:get_type_size:static-array')
     if not ok:
         ctx.finding(rule, f'{gt.file}:get_type_size:static-array',
